@@ -120,7 +120,7 @@ def count_claims(x, acc):
 
 def valuations(rng, pre, p, n):
     params = [("param", q[1]) for q in pre[2][1:]]
-    sigs = [("sig", d[0][1]) for d in pre[3][1:] if d[1] == "sigin"]
+    sigs = [("sig", d[0][1]) for d in pre[3][1:] if d[1] in ("sigin", "sigout", "sigint")]
     names = params + sigs
     special = [0, 1, 2, 3, 5, p - 1, p // 2, p // 2 + 1, 255, 256]
     vals = []
